@@ -6,7 +6,7 @@ import ast
 from .. import AnalysisError
 from ..flow import show, walk_term
 from ..report import ob_ok, ob_fail, ob_undecided
-from .common import (is_call, method_call, node_attr, edge_attr, elem_of, strip_wrappers, guards_of, enclosing_loops, need)
+from .common import (is_call, method_call, node_attr, edge_attr, elem_of, strip_wrappers, guards_of, enclosing_loops, need, carried_by)
 
 SELF = ("param", "self")
 
@@ -154,12 +154,8 @@ def prov_open_bonds(repo, tier="quick"):
         key, val = m[0][2], m[2][0]
         ek = elem_of(key)
         ev = elem_of(val)
-        if ek and ek[0] == "elem" and ev and ev[0] == "key":
-            lst = elem_of(ek[1])
-            if lst and lst[0] == "value" and lst[1] == ev[1]:
-                cc = is_call(strip_wrappers(ev[1]), "networkx.get_node_attributes")
-                if cc and cc[0][:2] == (mol, ("const", "bonding")):
-                    good = True
+        if ek and ek[0] == "elem" and carried_by(ek[1], val, "bonding") == mol:
+            good = True
     (obs.append(ob_ok(oid, fo, construct="index[d].append(node) for node, ds in bonding(molecule).items() for d in ds", instance="index",
                       reason="an atom is offered under every descriptor it carries")) if good else
      obs.append(ob_fail(oid, fo, construct="construction of the open-descriptor index", instance="index",
@@ -181,16 +177,12 @@ def prov_open_bonds(repo, tier="quick"):
         if not (ek and ek[0] == "elem" and val[0] == "tuple" and len(val[1]) == 2):
             continue
         name_t, node_t = val[1]
-        lst = elem_of(ek[1])                       # value of get_node_attributes(fraggraph, 'bonding').items()
-        en = elem_of(node_t)
-        if lst and lst[0] == "value" and en and en[0] == "key" and lst[1] == en[1]:
-            cc = is_call(strip_wrappers(en[1]), "networkx.get_node_attributes")
-            if cc and len(cc[0]) >= 2 and cc[0][1] == ("const", "bonding"):
-                fg = cc[0][0]
-                efg, ename = elem_of(fg), elem_of(name_t)
-                if efg and ename and efg[0] == "value" and ename[0] == "key" and efg[1] == ename[1] and \
-                        strip_wrappers(efg[1]) in (("attr", SELF, "fragment_dict"), ("param", "fragment_dict")):
-                    good = True
+        fg = carried_by(ek[1], node_t, "bonding")    # the descriptors of node_t in the fragment graph fg
+        if fg is not None:
+            efg, ename = elem_of(fg), elem_of(name_t)
+            if efg and ename and efg[0] == "value" and ename[0] == "key" and efg[1] == ename[1] and \
+                    strip_wrappers(efg[1]) in (("attr", SELF, "fragment_dict"), ("param", "fragment_dict")):
+                good = True
     (obs.append(ob_ok(oid, ini, construct="fragments_by_bonding[d].append((name, node)) for name, g in fragment_dict.items() for node, ds in bonding(g).items() for d in ds",
                       instance="fragment-index", reason="a partner entry names the fragment and the atom that really carry the descriptor")) if good else
      obs.append(ob_fail(oid, ini, construct="construction of fragments_by_bonding", instance="fragment-index",
@@ -749,11 +741,12 @@ COMPLETE_LOOPS = [
     ("pysmiles_utils:rebuild_h_atoms", "mol_graph.nodes", "every hydrogen inherits its attributes"),
     ("resolve:MoleculeResolver.read_fragment_strings", "fragment_strings", "every fragment level is read"),
     ("read_fragments:read_fragments", "fragment_iter", "every fragment definition is read"),
-    ("cgsmiles_utils:find_open_bonds", "get_node_attributes(molecule, 'bonding')", "every open descriptor is indexed"),
-    ("graph_utils:annotate_fragments", "itertools.combinations", "every pair of a coarse node's atoms is tested for a bond"),
+    ("cgsmiles_utils:find_open_bonds", ("get_node_attributes(molecule, 'bonding')", r"re:^molecule(\.nodes(\.items\(\)|\(data=True\))?)?$"), "every open descriptor is indexed"),
+    ("graph_utils:annotate_fragments", ("itertools.combinations", "@enclosing:add_edge"), "every pair of a coarse node's atoms is tested for a bond"),
     ("graph_utils:annotate_fragments", "[each(meta_graph.nodes)]", "every atom of the coarse node enters its per-node graph"),
     ("graph_utils:sort_nodes_by_attr", "relative_attr", "every node-referencing attribute is translated"),
-    ("graph_utils:sort_nodes_by_attr", "networkx.get_node_attributes(networkx.relabel_nodes", "every entry of the attribute is translated"),
+    ("graph_utils:sort_nodes_by_attr", ("networkx.get_node_attributes(networkx.relabel_nodes", r"re:^networkx\.relabel_nodes\(.*\)\.nodes(\.items\(\)|\(data=True\))?$"),
+     "every entry of the attribute is translated"),
     ("graph_utils:set_atom_names_atomistic", "enumerate(", "every atom of the coarse node is named"),
     ("graph_utils:set_atom_names_atomistic", "meta_graph.nodes", "the atoms of every coarse node are listed"),
     ("pysmiles_utils:rebuild_h_atoms", "copy_attrs", "every listed attribute is inherited by the hydrogen"),
@@ -771,7 +764,7 @@ COMPLETE_LOOPS_RDKIT = [
     ("rdkit:rdkit_to_networkx", "GetBonds()", "every RDKit bond becomes an edge"),
     ("rdkit:embed_3d_via_rdkit", "GetAtoms()", "every atom gets its position"),
     ("coordinates:forward_map_molecule", "cg_mol.nodes", "every bead gets a position"),
-    ("coordinates:forward_map_molecule", "'weight').items()", "every atom of the bead contributes"),
+    ("coordinates:forward_map_molecule", ("'weight').items()", "'weight')"), "every atom of the bead contributes"),
 ]
 
 
@@ -779,17 +772,35 @@ def ord_complete_loops(repo, tier="quick", table=None):
     """Loops that have to visit every element of their collection contain no break / return."""
     obs = []
     oid = "ORD.complete-loops"
-    for fq, needle, what in (table or COMPLETE_LOOPS):
+    import re as _re
+    for fq, needles, what in (table or COMPLETE_LOOPS):
         fi = repo.function(fq)
         fl, cfg = fi.flow, fi.cfg
         found = False
+        # alternatives: other ways of walking the same collection ("re:" marks a regular expression)
+        needles = (needles,) if isinstance(needles, str) else needles
+        needle = needles[0]
+
+        class _Hit:
+            def __contains__(self, it, needles=needles):
+                return any((_re.search(nd[3:], it) is not None) if nd.startswith("re:") else (nd in it) for nd in needles)
+        hit = _Hit()
+        # "@enclosing:<method>": the loops around the calls of that method, however they are written
+        around = set()
+        for nd in needles:
+            if nd.startswith("@enclosing:"):
+                for c_, n_ in fl.calls():
+                    if isinstance(c_.func, ast.Attribute) and c_.func.attr == nd.split(":", 1)[1]:
+                        around |= {l.id for l in enclosing_loops(fi, n_) if l.kind == "for"}
         for n in cfg.nodes:
             if n.kind != "for":
                 continue
             it = show(fl.canon(n.ast.iter, n.id))
+            if n.id in around:
+                it = needle
             # index.get(key, []) reads like index[key]
             it = it.replace(".get(each(", "[each(").replace("), [])", ")]") if ".get(each(" in it else it
-            if needle in it:
+            if it in hit:
                 found = True
                 ex = early_exit(n.ast)
                 (obs.append(ob_fail(oid, fi, ex[0], construct="%s inside `for ... in %s`" % (type(ex[0]).__name__.lower(), needle), instance=fi.qualname + ":" + needle,
@@ -804,7 +815,7 @@ def ord_complete_loops(repo, tier="quick", table=None):
                             it = show(fl.canon(g.iter, cfg.owner[id(sub)]))
                         except Exception:
                             continue
-                        if needle in it and not found:
+                        if it in hit and not found:
                             found = True
                             obs.append(ob_ok(oid, fi, sub, construct="comprehension over %s" % needle, instance=fi.qualname + ":" + needle,
                                              reason=what + " (a comprehension visits every element)"))
@@ -1346,10 +1357,12 @@ def prov_slash_marks(repo, tier="quick"):
         single = False
         for test, pol, gid in guards_of(fi, p):
             t = fl.canon(test, gid)
-            if pol and t[0] == "cmp" and t[1] == ("==",) and ("const", 1) in t[2]:
-                other = [x for x in t[2] if x != ("const", 1)]
-                if other and is_call(other[0], "len"):
-                    single = True
+            # a true conjunction implies each of its conjuncts
+            for tc in (t[2] if pol and t[0] == "boolop" and t[1] == "and" else (t,)):
+                if pol and tc[0] == "cmp" and tc[1] == ("==",) and ("const", 1) in tc[2]:
+                    other = [x for x in tc[2] if x != ("const", 1)]
+                    if other and is_call(other[0], "len"):
+                        single = True
         if not single:
             bad.append((n, "return not controlled by `len(graph) == 1`"))
     if bad:
